@@ -445,4 +445,36 @@ CHECKS = {
                 "command has no --sharding option, so that equality is "
                 "checked for unsharded option sets only.",
     },
+    "C18": {
+        "engine": "E-DEV", "level": "fault_enumeration",
+        "technique": "deviation-bounded exhaustive fault and crash "
+                     "enumeration at system-call granularity: every call of "
+                     "the operation under test x {errno menu, short writes, "
+                     "kill before/after}, bound 1 (quick) / 2 (thorough)",
+        "text": "A harness-side seam (builtins.open -> _pyio.open, wrapped "
+                "os.* calls) makes every system call under the dataset root "
+                "a point while user-space buffering stays real. For 46 file "
+                "accessor scenarios (4 layouts x raw / "
+                "compressed_segmentation x write new / overwrite / "
+                "overwrite stored with the other compression / store_file / "
+                "read / fetch / exists) and 12 sharded scenarios (2 "
+                "buffering strategies x raw/gzip x write a new shard / "
+                "rewrite a shard / read) the operation is recorded "
+                "fault-free, then re-executed once per (point, answer): "
+                "errno from the menu, short write of 1 or n-1 bytes with a "
+                "failing retry, process death before or after the call "
+                "(dead mode drops every later mutating call, so buffers are "
+                "lost as with SIGKILL). Oracle A: the operation raises "
+                "DataAccessError or an OSError, or returns with result and "
+                "tree identical to the fault-free run; earlier data stays "
+                "intact; a store that failed before opening its target "
+                "leaves the old version. Oracle B: a fresh reader decodes "
+                "every chunk to an acknowledged or in-flight version or "
+                "fails; never other values. Replayed prefixes must match "
+                "the recording.",
+        "note": "Process-death crash model (no fsync reordering); points "
+                "are calls under the dataset root (temp buffers of the "
+                "on-disk strategy are outside); HTTP faults are explored by "
+                "C14.",
+    },
 }
